@@ -17,9 +17,25 @@ def schedules(streams, lengths, shared="none"):
     names = sorted(streams)
     work = ", ".join(f'{n} |-> <<{", ".join(f"<<\"k{(i * 3 + j) % 4}\", \"t{(i + j) % 3}\">>" for j in range(lengths[n]))}>>' for i, n in enumerate(names))
     text = (f"---- MODULE MCIso ----\nEXTENDS PyIsolation\nSS == {{{', '.join(chr(34) + n + chr(34) for n in names)}}}\nWW == [{work}]\n====\n")
-    cfg = f'SPECIFICATION Spec\nCONSTANTS Streams <- SS Work <- WW SharedState = "{shared}"\nINVARIANT Isolated\nINVARIANT PrintSchedule\nCHECK_DEADLOCK FALSE\n'
+    cfg = f'SPECIFICATION Spec\nCONSTANTS Streams <- SS Work <- WW SharedState = "{shared}" FlushEvery = 3\nINVARIANT Isolated\nINVARIANT PrintSchedule\nCHECK_DEADLOCK FALSE\n'
     r = tlc.run("MCIso", cfg, module_text=text, workers=1, timeout=600)
     return [json.loads(p) for p in r.printed("SCHEDULE")], r
+
+
+def push_generator(name, options):
+    """Statement-by-statement use of a Stream built from a GIVEN SerializerOptions object (callers commonly reuse one options object)."""
+    integ, ptype, stmts, _ = solo.workloads()[name]
+    cfg = impl.default_cfg(integ=integ, sclass=("triple" if ptype == 1 else "quad"))
+    stream = impl.make_stream(cfg, options)
+    stream.enroll()
+    for st in stmts:
+        tt = [terms.to_generic(t) if integ == "generic" else terms.to_rdflib(t) for t in st] if integ == "rdflib" or not any(t[0] == "qt" for t in st) \
+            else [__import__("harness.writer", fromlist=["to_impl_term"]).to_impl_term(t, integ) for t in st]
+        fr = stream.triple(tt) if ptype == 1 else stream.quad(tt)
+        yield fr                      # None when nothing was cut: the step still counts
+    last = stream.flow.to_stream_frame()
+    if last is not None:
+        yield last
 
 
 class Pipe:
@@ -29,7 +45,10 @@ class Pipe:
         self.name, self.kind = name, kind
         self.out = io.BytesIO()
         self.items = []
-        if kind == "ser":
+        if kind == "push":
+            self.gen = push_generator(name, data)          # data = the (possibly shared) SerializerOptions object
+            self.kind = "ser"
+        elif kind == "ser":
             self.gen = solo.frames_generator(name)
         else:
             mod = __import__(f"pyjelly.integrations.{integ}.parse", fromlist=["parse_jelly_flat"])
@@ -50,7 +69,8 @@ class Pipe:
             self.error = f"{type(ex).__name__}: {str(ex)[:100]}"
             return
         if self.kind == "ser":
-            impl.write_delimited(x, self.out)
+            if x is not None:
+                impl.write_delimited(x, self.out)
         else:
             self.items.append(self.conv(x))
 
@@ -139,7 +159,7 @@ def main(tier: str) -> int:
     states, trans = r2.distinct, r2.generated
     if r2.violated or len(s2) != 70:
         env.machinery_failure(f"C12: PyIsolation: {r2.violated}, {len(s2)} schedules")
-    for shared in ("rep", "table"):
+    for shared in ("rep", "table", "flow"):
         _, rb = schedules({"A", "B"}, {"A": 4, "B": 4}, shared)
         if "Isolated" not in rb.violated:
             env.machinery_failure(f"C12: shared {shared} is not refuted by TLC: Isolated is vacuous")
@@ -181,6 +201,42 @@ def main(tier: str) -> int:
             check(res, specs, {"mode": "threads-baton"}, {"pair": [a, b], "schedule": sched})
         if len(samples) < 2:
             samples.append({"pair": [a, b], "schedules": len(s2), "example": s2[len(s2) // 2]})
+    # one SerializerOptions object shared by two streams that are driven statement by statement (rows stay buffered between steps)
+    for a, b in (("A", "D"), ("D", "A"), ("B", "C"), ("C", "B")):
+        ptype = solo.workloads()[a][1]
+        for fs in (250, 3):
+            def opts(ptype=ptype, fs=fs):
+                return impl.make_options(impl.default_cfg(integ="generic", sclass=("triple" if ptype == 1 else "quad"), ltype=(1 if ptype == 1 else 2),
+                                                          frame_size=fs, preset=(8, 3, 2), gen=True, star=True))
+            solo_push = {}
+            for n in (a, b):
+                p = Pipe(n, "push", opts())
+                p.finish()
+                solo_push[n] = p.result()
+            for sched in (s2 if tier == "thorough" else rnd.sample(s2, 25)):
+                shared = opts()
+                pipes = {"A": Pipe(a, "push", shared), "B": Pipe(b, "push", shared)}
+                for s_ in sched:
+                    pipes[s_].step()
+                for p in pipes.values():
+                    p.finish()
+                runs += 1
+                for role, n in (("A", a), ("B", b)):
+                    if pipes[role].result() != solo_push[n]:
+                        run.violation({"mode": "shared-options-object", "stream": n, "frame_size": fs},
+                                      f"bytes of workload {n} differ from its solo run when a second stream built from the SAME SerializerOptions object is written interleaved",
+                                      {"pair": [a, b], "schedule": sched, "frame_size": fs})
+            # prior history with the same options object: an earlier stream abandoned with rows still buffered
+            shared = opts()
+            dead = Pipe(b, "push", shared)
+            dead.step()
+            dead.step()
+            p = Pipe(a, "push", shared)
+            p.finish()
+            runs += 1
+            if p.result() != solo_push[a]:
+                run.violation({"mode": "prior-history-shared-options", "stream": a, "frame_size": fs},
+                              f"bytes of workload {a} depend on an earlier, abandoned stream built from the same SerializerOptions object", {"pair": [a, b], "frame_size": fs})
     # three-way with a parser in the middle
     for a, b, p in (itertools.permutations(names, 3) if tier == "thorough" else [tuple(rnd.sample(names, 3)) for _ in range(3)]):
         specs = {"A": (a, "ser"), "B": (b, "ser"), "P": (p, "par", base[p], solo.workloads()[p][0])}
